@@ -131,9 +131,20 @@ def box_strategy(draw, shape, min_size=1, margin=0):
 def switch_strategy(draw, steps, dt_periods=True):
     """On/off schedules in the public vocabulary, JSON form. Times are given in *steps* and converted
     to seconds by the builder (start_time = step * dt)."""
-    kind = draw(st.sampled_from(["always", "always", "window", "interval", "fixed", "off"]))
+    kind = draw(st.sampled_from(["always", "always", "window", "interval", "fixed", "off", "duration"]))
     if kind == "always":
         return {}
+    if kind == "duration":  # window given through a duration (on_for_*), alone or with one edge, seconds or periods
+        n = draw(st.integers(0, max(0, steps - 2)))
+        s = {"on_for_steps": n}
+        edge = draw(st.sampled_from(["none", "none", "start", "end"]))
+        if edge == "start":
+            s["start_step"] = draw(st.integers(0, max(0, steps - 2)))
+        elif edge == "end":
+            s["end_step"] = draw(st.integers(n, steps))
+        if draw(st.booleans()):
+            s["periods"] = True
+        return s
     if kind == "off":
         return {"is_always_off": True}
     if kind == "fixed":
@@ -329,8 +340,18 @@ def _switch(sw, dt, wl_period):
         kw["start_time"] = (sw["start_step"] - 0.25) * dt
     if "end_step" in sw:
         kw["end_time"] = (sw["end_step"] + 0.25) * dt
+    if "on_for_steps" in sw:
+        # with one edge given the other edge is edge -/+ duration: total margin stays a quarter step on both sides
+        kw["on_for_time"] = (sw["on_for_steps"] + (0.5 if ("start_step" in sw or "end_step" in sw) else 0.25)) * dt
     if "interval" in sw:
         kw["interval"] = sw["interval"]
+    if sw.get("periods"):  # the same window expressed through *_periods with period = 4 dt
+        period = 4.0 * dt
+        kw["period"] = period
+        for t_key, p_key in (("start_time", "start_after_periods"), ("end_time", "end_after_periods"),
+                             ("on_for_time", "on_for_periods")):
+            if t_key in kw:
+                kw[p_key] = kw.pop(t_key) / period
     return fdtdx.OnOffSwitch(**kw)
 
 
@@ -344,6 +365,14 @@ def switch_on_steps(sw, steps):
         return sorted(sw["fixed_on_time_steps"])
     a = sw.get("start_step", 0)
     b = sw.get("end_step", steps)
+    if "on_for_steps" in sw:  # documented defaulting: start = end - on_for | 0, end = start + on_for
+        n = sw["on_for_steps"]
+        if "start_step" in sw:
+            b = a + n
+        elif "end_step" in sw:
+            a = b - n
+        else:
+            a, b = 0, n
     iv = sw.get("interval", 1)
     return [t for t in range(steps) if a <= t <= b and t % iv == 0]
 
